@@ -30,7 +30,7 @@ impl<T: Sized> JoinHandle<T> {
     pub fn join(self) -> Option<T> {
         // The OS will change to futex value to 0 and then wake it when the thread finishes.
         unsafe {
-            futex_wait_fast(self.tsm.get_futex(), UNFINISHED);
+            wait_for_exit(self.tsm);
             // The thread has completed, we have exclusive access to the memory.
             // Pack it into a box, then consume the box to get the value off the heap.
             let val = self.tsm.get_value::<T>().into_inner();
@@ -56,10 +56,22 @@ impl<T: Sized> Drop for JoinHandle<T> {
             {
                 // The thread got its work done first, we need to wait for it to exit, signalled
                 // by the OS through the futex, then we know we have exclusive access to the memory.
-                futex_wait_fast(self.tsm.get_futex(), UNFINISHED);
+                wait_for_exit(self.tsm);
                 self.tsm.dealloc();
             }
         }
+    }
+}
+
+/// Blocks until the kernel has cleared the thread's exit word (`CLONE_CHILD_CLEARTID`).
+/// A return from the futex wait alone proves nothing, it also returns on stray wake-ups and on errors,
+/// so the word is checked again. `Acquire` pairs with the thread's writes before it exited,
+/// making its result visible to the joiner.
+#[inline]
+unsafe fn wait_for_exit(tsm: Tsm) {
+    let futex = tsm.get_futex();
+    while futex.load(Ordering::Acquire) == UNFINISHED {
+        futex_wait_fast(futex, UNFINISHED);
     }
 }
 
